@@ -217,3 +217,49 @@ package persistence
 //@   ensures[C14.deletemap.atomic] result != nil ==> dbHas == old(dbHas) && dbVal == old(dbVal)
 //@   ensures dbWF()
 //@   modifies dbBucket, dbHas, dbVal, txBucket, txHas, txVal
+
+// ---- lemmas over the contracts above (functions in zz_lemmas_verif.go) ---------------------------------------
+// One step of "anything else": an operation on another fan's curve data (fan b) or on the pwm map of id2.
+
+//@ pure curveEntrySame(id string) bool = dbHas["fans"][id] == old(dbHas)["fans"][id] && dbVal["fans"][id] == old(dbVal)["fans"][id]
+//@ pure mapEntrySame(id string) bool = dbHas["fanPwmMap"][id] == old(dbHas)["fanPwmMap"][id] && dbVal["fanPwmMap"][id] == old(dbVal)["fanPwmMap"][id]
+
+//@ func lemmaOtherOp
+//@   props C14
+//@   requires fans.fanWF(b) && fans.dataPtr(b) != nil && ref(*fans.dataPtr(b)) < W && dbWF()
+//@   ensures[C14.step.curve] forall id string :: id != fanId(b) ==> curveEntrySame(id)
+//@   ensures[C14.step.map] forall id string :: id != id2 ==> mapEntrySame(id)
+//@   ensures[C14.step.kind] (op >= 3 ==> forall id string :: curveEntrySame(id)) && (op < 3 ==> forall id string :: mapEntrySame(id))
+//@   ensures dbWF()
+//@   modifies dbBucket, dbHas, dbVal, txBucket, txHas, txVal, decodeFailed, m[_]
+
+//@ func lemmaCurveHistory
+//@   props C14
+//@   requires fans.fanWF(a) && fans.dataPtr(a) != nil && ref(*fans.dataPtr(a)) < W && dbWF()
+//@   requires forall i int :: 0 <= i && i < len(bs) && bs[i] != nil ==> fans.fanWF(bs[i]) && (fans.dataPtr(bs[i]) != nil ==> ref(*fans.dataPtr(bs[i])) < W)
+//@   requires forall i int :: 0 <= i && i < len(ms) ==> ref(ms[i]) != ref(*fans.dataPtr(a))
+//@   ensures[C14.history.curve] saveErr == nil && loadErr == nil ==> data != nil && mapdom(data) == old(mapdom(*fans.dataPtr(a))) && forall k int :: k in mapdom(data) ==> mapval(data)[k] == old(mapval(*fans.dataPtr(a)))[k] && mapvalk(data)[k] == old(mapvalk(*fans.dataPtr(a)))[k]
+//@   modifies dbBucket, dbHas, dbVal, txBucket, txHas, txVal, decodeFailed, each(map[int]int)[_]
+//@   loop 1 "for i := 0; i < len(ops) && i < len(bs) && i < len(ids) && i < len(ms); i++"
+//@     invariant 0 <= i && dbWF() && dbHas["fans"][fanId(a)] && (dbVal["fans"][fanId(a)] in jsonOkF) && encF(dbVal["fans"][fanId(a)], *fans.dataPtr(a))
+//@     invariant mapdom(*fans.dataPtr(a)) == old(mapdom(*fans.dataPtr(a))) && mapval(*fans.dataPtr(a)) == old(mapval(*fans.dataPtr(a))) && mapvalk(*fans.dataPtr(a)) == old(mapvalk(*fans.dataPtr(a)))
+//@     decreases len(ops) - i
+
+//@ func lemmaMapHistory
+//@   props C14
+//@   requires dbWF()
+//@   requires forall i int :: 0 <= i && i < len(bs) && bs[i] != nil ==> fans.fanWF(bs[i]) && (fans.dataPtr(bs[i]) != nil ==> ref(*fans.dataPtr(bs[i])) < W)
+//@   requires forall i int :: 0 <= i && i < len(ms) ==> ref(ms[i]) != ref(pwmMap)
+//@   ensures[C14.history.map] saveErr == nil && loadErr == nil ==> data != nil && mapdom(data) == old(mapdom(pwmMap)) && forall k int :: k in mapdom(data) ==> mapval(data)[k] == old(mapval(pwmMap))[k]
+//@   modifies dbBucket, dbHas, dbVal, txBucket, txHas, txVal, decodeFailed, each(map[int]int)[_]
+//@   loop 1 "for i := 0; i < len(ops) && i < len(bs) && i < len(ids) && i < len(ms); i++"
+//@     invariant 0 <= i && dbWF() && dbHas["fanPwmMap"][id] && (dbVal["fanPwmMap"][id] in jsonOkI) && encI(dbVal["fanPwmMap"][id], pwmMap)
+//@     invariant mapdom(pwmMap) == old(mapdom(pwmMap)) && mapval(pwmMap) == old(mapval(pwmMap))
+//@     decreases len(ops) - i
+
+//@ func lemmaDeleteTwice
+//@   props C14
+//@   requires fans.fanWF(a) && dbWF()
+//@   ensures[C14.delete.idempotent] err1 == nil && err2 != nil ==> dbHas == old(dbHas) || !dbHas["fans"][fanId(a)]
+//@   ensures[C14.delete.notfound] err1 == nil ==> loadErr != nil && !dbHas["fans"][fanId(a)]
+//@   modifies dbBucket, dbHas, dbVal, txBucket, txHas, txVal, decodeFailed
